@@ -274,8 +274,10 @@ Definition push_applied (q : list (N * option N)) (a : option (N * option N)) :=
 Definition applied_bucket (c : config) (t : table) (i : nat) (now : N) : bucket * list (N * option N) :=
   let (b, a) := b_apply_pending c (get_bucket t i) now in (b, push_applied (applied t) a).
 
-(* table_iter: values of all nodes (pending nodes are not included) *)
-Definition table_values (t : table) : list val := flat_map (fun b => values (nodes b)) (buckets t).
+(* table_iter: values of all nodes, followed per bucket by the value of the pending node *)
+Definition bucket_values (b : bucket) : list val :=
+  values (nodes b) ++ match pend b with Some p => [nval (pn p)] | None => [] end.
+Definition table_values (t : table) : list val := flat_map bucket_values (buckets t).
 
 Definition passes_table_filter (c : config) (t : table) (k : N) (v : val) : bool :=
   match tfilter c with
